@@ -119,8 +119,10 @@ def rendered_matrix(d, solver, method):
     return out, {"rowptrs": rp, "colvals": cv, "ndata": len(dv), "indices_ok": ok}
 
 
-def check_desc(res, model, desc, rng, tag, channel_b=False):
+def check_desc(res, model, desc, rng, tag, channel_b=False, after=None):
     case = {"kind": "c02", "desc": desc}
+    if after is not None:
+        case["after"] = after          # generated right after this description in the same process
     a = ol.analyse(desc, model)
     n = a.ode.jac.nrow
     rhs = rhs_texts(a)
@@ -199,6 +201,10 @@ def run(res, info):
     for i in range(n_a):
         desc = c01.gen_desc(rng, "small" if i % 6 else "large")
         check_desc(res, model, desc, rng, i, channel_b=(i < n_b))
+        if i % 3 == 0:
+            d2 = ol.follow_up(rng, desc)
+            if d2 is not None:
+                check_desc(res, model, d2, rng, (i, "follow-up"), channel_b=(i < n_b), after=desc)
     if model:
         model.close()
 
@@ -208,6 +214,10 @@ def replay(rp, info):
     model = fw.Model() if info["ok"] else None
     case = rp.get("case") or {}
     if "desc" in case:
+        if case.get("after"):
+            prev = case["after"]
+            prev["reactions"] = [tuple(x) for x in prev["reactions"]]
+            check_desc(fw.Result("C02", "quick", 0), model, prev, random.Random(0), "replay-before", channel_b=True)
         d = case["desc"]
         d["reactions"] = [tuple(x) for x in d["reactions"]]
         check_desc(res, model, d, random.Random(0), "replay", channel_b=True)
